@@ -71,24 +71,53 @@ def cli_report_check(scs, rep, cov, tier):
     obs, meta = [], {}
     work = common.mkwork()
     try:
-        for n, sc in enumerate(scs[: (12 if tier == "quick" else 200)]):
+        import random
+        import habutax.forms as F
+        # a mix of verdicts: explored returns as they are (solved, or stopped at unimplemented lines), and the same returns
+        # with a few answers taken away (missing inputs and the lines blocked behind them, often next to unimplemented ones)
+        chosen = []
+        by_kind = {}
+        for sc in scs:
+            kind = "abort" if sc["res"]["abort"] else ("solved" if sc["res"].get("solved") else "failed")
+            by_kind.setdefault(kind, []).append(sc)
+        per = 4 if tier == "quick" else 70
+        for kind in sorted(by_kind):
+            chosen += by_kind[kind][:per]
+        cases = []
+        for n, sc in enumerate(chosen):
+            cases.append((sc, dict(sc["given"]), sc["res"]))
+            rng = random.Random("cli-%s" % sc["sid"])
+            keys = sorted(sc["given"])
+            if len(keys) > 4:
+                g2 = dict(sc["given"])
+                for k2 in rng.sample(keys, rng.choice([1, 2, 4])):
+                    del g2[k2]
+                conf2 = runs.make_config({k3: v.replace("%", "%%") for k3, v in g2.items()})
+                _t, res2, _s = runs.run_traced(F.available_forms[sc["year"]], conf2, sc["request"], (), user=None, mode="real", snap="none", max_events=30000)
+                cases.append((dict(sc, given=g2, sid=sc["sid"] + "/less"), g2, res2))
+        for n, (sc, given_n, res_n) in enumerate(cases):
             path = os.path.join(work, "in_%d.habutax" % n)
-            conf = runs.make_config({k2: v.replace("%", "%%") for k2, v in sc["given"].items()})
+            conf = runs.make_config({k2: v.replace("%", "%%") for k2, v in given_n.items()})
             with open(path, "w") as f:
                 conf.write(f)
             kb = cli_driver.Keyboard({}, default=None)
             r = cli_driver.run_solve(sc["year"], sc["request"], path, kb, solution_path=os.path.join(work, "sol_%d" % n), prompt=False, writeback=False)
             out = r["stdout"]
-            sec = lambda title: (out.split(title, 1)[1].split("\n\n", 1)[0] if title in out else "")
-            p_un = re.findall(r"^- (\S+)$", sec("The following fields encountered unimplemented behavior:"), re.M)
-            p_mi = re.findall(r"^(\S+) \(needed by:", sec("The following inputs were needed but not supplied:"), re.M)
-            p_bl = re.findall(r"^(\S+) \(needed by:", sec("The following fields were needed but unable to be produced"), re.M)
-            res = sc["res"]
+            # wording-independent reading of the report: which of the names the solver blames occur in the output at all,
+            # and whether the output speaks of success and/or of failure (any phrasing).  The solution goes to a file, so
+            # stdout holds the report only.
+            tokens = set(re.findall(r"[\w:\-]+\.[\w\-]+", out))
+            res = res_n
+            low = out.lower()
+            says_ok = bool(re.search(r"success|solved!", low)) and not re.search(r"fail|not solved|unable to solve|could not", low.split("because")[0])
+            says_bad = bool(re.search(r"fail|not solved|unable to solve|could not solve", low))
             oid = len(obs) + 1
             obs.append({"oid": oid, "abort": res["abort"], "solved": bool(res.get("solved")), "unimpl": res.get("unimpl", []),
                         "missing": sorted(res.get("missing", {})), "blocked": sorted(res.get("blocked", {})), "exc": r["exc"],
-                        "said_solved": "Successfully solved!" in out, "said_failed": "Failed to solve, because" in out,
-                        "p_unimpl": p_un, "p_missing": p_mi, "p_blocked": p_bl})
+                        "said_solved": says_ok, "said_failed": says_bad,
+                        "p_unimpl": [x for x in res.get("unimpl", []) if x in tokens],
+                        "p_missing": [x for x in sorted(res.get("missing", {})) if x in tokens],
+                        "p_blocked": [x for x in sorted(res.get("blocked", {})) if x in tokens]})
             meta[oid] = sc
         rows, res_t = content_checks.run_oracle("CliReport", "HV_CLI_FILE", {"obs": obs}, work, "CLI")
     finally:
